@@ -36,6 +36,11 @@ def gen(rng, n):
             for pos in (0, 2, len(base)):
                 tail = ["s 9", "i 9"] if end in ("fi", "fs") else []
                 hs.append(["N %s ignoreclose=1 closewedge=1" % mode] + base[:pos] + [end] + base[pos:] + tail + ["E"])
+    # a twin stream for the same pair of shards is up at the same time and ends first (monitor only): this one must still relay
+    # everything and end properly
+    for mode in ("default", "lcm"):
+        hs.append(["N %s ignoreclose=0 twin=1" % mode] + base + ["s 4", "i 3", "se", "E"])
+        hs.append(["N %s ignoreclose=0 twin=1" % mode] + base + ["ic", "E"])
     for _ in range(n):
         h = ["N %s ignoreclose=%d" % (rng.choice(["default", "lcm"]), rng.below(2))]
         k = 0
@@ -55,13 +60,13 @@ def gen(rng, n):
     return hs
 
 
-def run_impl(hs, tag):
+def run_impl(hs, tag, timeout=None):
     inp = os.path.join(V.WORK, "c06_%s.in" % tag)
     outp = os.path.join(V.WORK, "c06_%s.out" % tag)
     open(inp, "w").write("".join("\n".join(h) + "\n" for h in hs))
     if os.path.exists(outp):
         os.remove(outp)
-    rc, out = V.go_test("proxy", GO, "^TestVerifForwarder$", env={"VERIF_IN": inp, "VERIF_OUT": outp}, timeout=1500)
+    rc, out = V.go_test("proxy", GO, "^TestVerifForwarder$", env={"VERIF_IN": inp, "VERIF_OUT": outp}, timeout=timeout or (240 if len(hs) < 1000 else 900))
     if rc != 0 or not os.path.exists(outp):
         return "forwarder harness failed:\n" + out[-3000:], None
     res, cur = [], None
@@ -117,6 +122,15 @@ def monitor(h, lines):
         bad.append("messages to the initiator %s are not a prefix of what the source sent %s" % (got_i, sent_s))
     if got_s != sent_i[:len(got_s)]:
         bad.append("messages to the source %s are not a prefix of what the initiator sent %s" % (got_s, sent_i))
+    if "twin=1" in h[0]:
+        # everything sent before the first ending has to be relayed
+        k = next((j for j, l in enumerate(h) if l in ENDINGS), len(h))
+        before_s = [l.split()[1] for l in h[:k] if l.startswith("s ")]
+        before_i = [l.split()[1] for l in h[:k] if l.startswith("i ")]
+        if got_i[:len(before_s)] != before_s or got_s[:len(before_i)] != before_i:
+            bad.append("with a twin stream that ended first: relayed to the initiator %s of %s, to the source %s of %s" % (got_i, before_s, got_s, before_i))
+        if any(l.startswith("TWIN stuck") for l in lines):
+            bad.append("the twin stream's handler did not return")
     ended = False
     ev = None
     for l in lines:
@@ -154,13 +168,13 @@ def check(tier, seed):
     err2, model = run_model(exe, hs) if ok else ("no driver", None)
     if err or err2:
         ck.obligation("correspondence run", False, (err or err2)[:1500])
-        if not (err and V.crash_violation(ck, err, os.path.join(V.WORK, "c06_main.out"), hs, lambda h: run_impl([h], "crash")[0], "StreamForwarder harness")):
+        if not (err and V.crash_violation(ck, err, os.path.join(V.WORK, "c06_main.out"), hs, lambda h: run_impl([h], "crash", timeout=60)[0], "StreamForwarder harness")):
             ck.violation({"kind": "harness", "log": err or err2, "broken": "C06 harness"}, "harness failed: " + (err or err2)[:300], no_input=True)
         return ck.finish()
     diffs, mon = [], []
     distinct = set()
     for i, h in enumerate(hs):
-        if "openblock=1" not in h[0] and "closewedge=1" not in h[0] and project(impl[i]) != project(model[i]):
+        if "openblock=1" not in h[0] and "closewedge=1" not in h[0] and "twin=1" not in h[0] and project(impl[i]) != project(model[i]):
             diffs.append(i)
         b = monitor(h, impl[i])
         if b:
